@@ -15,7 +15,7 @@ ANCHORS = [
 ]
 
 META = {
-    'totals': (240, 8000),
+    'totals': (240, 14000),
     'rule': ('same clipping workload as C08 (all conventions, CF coordinates as coordinates or plain variables, meshes 0/1-based with '
              'all 16 subsets of optional connectivity, every fill representation, transposed tables); after each clip: convention class '
              'of the result, save with ems.to_netcdf + reopen, polygons of selected cells vs the model rings at their new positions '
